@@ -489,6 +489,15 @@ func (l *log) delete(offsets map[int64]struct{}) ([]Message, int64, error) {
 	l.readersMu.Lock()
 	defer l.readersMu.Unlock()
 
+	// rdr was looked up before the locks were taken. If its segment was the writing one then and was
+	// rolled over since, rdr is the retired writer's reader: the log holds a new reader for the segment.
+	for _, r := range l.readers {
+		if r.segment == rdr.segment {
+			rdr = r
+			break
+		}
+	}
+
 	newReader, err := rdr.Delete(rs)
 	if err != nil {
 		return nil, 0, err
